@@ -73,9 +73,10 @@ _EVAL_NOTE = ("Trusted: Lean kernel; the hand-written mirror of EVAL/eval_ast/do
               "the real interpreter in a freshly loaded environment and diffing value / thrown value / ordered trace! effects / final definitions / "
               "poll count / EVAL-frame depth marks with the model; Go integer wrap-around and float arithmetic are not modelled.")
 PROPS["C01"] = {
-    "model_is_spec": ['eval'],
+    "model_is_spec": ['eval', 'enum'],
     "lean_module": "LispModel.Props.C01",
-    "engines": [{"name": "eval", "quick": 6000, "thorough": 120000}],
+    "engines": [{"name": "eval", "quick": 6000, "thorough": 120000},
+                {"name": "enum", "quick": 60000, "thorough": 400000}],
     "ignore_spec": {},
     "technique": "Lean 4 theorems (evaluation laws of the implementation-shaped evaluator model) + differential correspondence on typed random programs",
     "level_text": "Kernel-checked evaluation laws (one per clause of the language definition: scoping, sequential let, def, closures, truthiness, "
@@ -272,6 +273,28 @@ PROPS["C19"] = {
                   "layouts (comments, blank lines, CRLF, trailing comment without newline); all routes must agree and the first is compared with the model.",
     "level_note": _EVAL_NOTE,
     "assumptions": ["programs of the C01/C12 class without deliberate errors", "files are written under the check's scratch directory"],
+}
+
+PROPS["C11"] = {
+    "lean_module": "LispModel.Props.C11",
+    "tie_modules": ["LispModel.Tie.EnvSync"],
+    "engines": [{"name": "envconc", "quick": 150, "thorough": 3000}],
+    "trivial_len": 3,
+    "technique": "Lean 4 theorems about an interleaving micro-op model of env.go (per-scope RWMutex, the climb to outer through the locked entry "
+                 "point, unlocked writes only on the scope not yet returned) with evaluations as adaptive sequences of env operations "
+                 "+ facts regenerated from env.go / mal.go + simultaneous evaluations on one environment compared with solo runs, race detector",
+    "level_text": "PARTIAL (memory model, fairness assumed; values abstract; publication of scopes through closures stored in globals/atoms/futures is "
+                  "outside the noninterference theorem): for any number of threads and any interleaving: lock discipline of every scope, every data "
+                  "access under that scope's lock or on a scope still private to its creating call, no torn global (a Get returns an initial or a "
+                  "fully Set value), fresh scopes are touched by their creator only, noninterference (a thread confined to its own root keys and its "
+                  "own scopes obtains exactly its solo results, by simulation), the interpreter's package-level variables are untouched without a "
+                  "Stepper. Tie: micro-op sequences, locksets, *NT call sites and guarded global assignments regenerated from the source; 2-16 "
+                  "generated programs run simultaneously on one preloaded environment against their solo runs; the same under -race.",
+    "level_note": _CONC_NOTE,
+    "assumptions": _CONC_ASSUME + ["Env.Symbols (REPL completion) is covered by the static lockset facts only; Env.Update is modelled on a scope without outer "
+                                   "(its only use: registration on the root namespace)",
+                                   "programs write global names of their own and read shared globals nobody writes (the property's premise); closures "
+                                   "published through globals, atoms or futures are exercised by the harness, not by the noninterference theorem"],
 }
 
 # properties not claimed at this commit, with the reason
